@@ -522,6 +522,33 @@ def diagnose(f, op, h, parent):
     return f
 
 
+def periodic_ms(d):
+    """the knot multiplicities of knots 0..n-1 as StructuredTopology.basis_spline expands them"""
+    p, n = d['p'], d['n']
+    c = d['k'] + p if d['k'] < 0 else d['k']
+    if d['form'] == 'full':
+        ms = list(d['ms'])
+    elif d['form'] == 'none':
+        ms = [p - c] * (n + 1)
+    else:
+        ms = [d['ms'][i // 2] if i % 2 == 0 else p - c for i in range(n + 1)]
+    return ms[:n]
+
+
+def short_periodic_knots(d):
+    """the root cause of the AssertionError of periodic splines on very few elements: the period is repeated
+    'while m[n:].sum() < p - m[0] + 2', but the local knot vector of element n-1 takes p knots from beyond the period"""
+    if not d['per']:
+        return False
+    m = periodic_ms(d)
+    p, n = d['p'], d['n']
+    if m[0] == p + 1:
+        return False
+    while sum(m[n:]) < p - m[0] + 2:
+        m = m + m
+    return sum(m[n:]) < p
+
+
 def guarded(gen, hist):
     """exceptions raised by nutils while constructing a basis the model defines are violations"""
     k = 0
@@ -534,6 +561,10 @@ def guarded(gen, hist):
             raise
         except Exception as e:
             op = hist[k]['op'] if k < len(hist) else '?'
+            if op == 'dim' and isinstance(e, AssertionError) and short_periodic_knots(dim_kwargs(hist[k])):
+                d = dim_kwargs(hist[k])
+                raise Fail('spline:periodic:knot-vector-too-short:raises-AssertionError', 'periodic spline of degree {} on {} element(s) with knot multiplicities {} raised {!r}: '
+                           'basis_spline repeats the period until p - m[0] + 2 knots lie beyond it, the last element needs p'.format(d['p'], d['n'], periodic_ms(d), e))
             raise Fail('{}:raises-{}'.format(op, type(e).__name__), 'constructing the basis for step {} ({}) raised {!r}'.format(k + 1, op, e))
         k = item[0]
         yield item
